@@ -269,7 +269,8 @@ package parser
 //@   modifies p.offset, p.current, p.currentLen
 //@   ensures wf(p.Scanner) && p.offset >= old(p.offset)
 //@   ensures errIn(result.1, p.Scanner)
-//@   ensures result.1 == nil ==> node(result.0.Range, p, old(p.offset)) && okFile(result.0) && p.current == EOF && result.0.Range.End == len(p.text)
+//@   ensures result.1 == nil ==> node(result.0.Range, p, old(p.offset)) && p.current == EOF && result.0.Range.End == len(p.text)
+//@   ensures @tree: result.1 == nil ==> okFile(result.0)
 //@   ensures @own: result.1 == nil ==> fresh(result.0.Directives) && ownBookings(result.0) && apartBookings(result.0)
 //@   loop 1 invariant wf(p.Scanner) && p.offset >= old(p.offset) && s.Start == old(p.offset) && s.Scanner == &p.Scanner && fresh(file.Directives)
 //@   loop 1 invariant ownBookings(file) && apartBookings(file)
